@@ -1,1 +1,332 @@
-(* placeholder *)
+(* Pipeline.v -- executable model of the order-sensitive skeleton of pilota-build's emission (C17).
+
+   Modelled code (read line by line at the pinned tree):
+     pilota-build/src/codegen/mod.rs       write_items (451-525) incl. the nested fn write_stream,
+                                           write_split_mod (527-588), generate_unique_name (595-603)
+     pilota-build/src/codegen/pkg_tree.rs  from_pkgs, PkgNode::from_pkgs
+     pilota-build/src/codegen/workspace.rs group_defs (56-166), create_crate (the part that decides what
+                                           is written where)
+   What is abstract (Section variables, all plain functions of their arguments):
+     item        a CodegenItem (DefId + Direct/RePub)
+     mod_path    Context::mod_path(def_id) (workspace mode: without the crate segment)
+     render      the text write_item appends for one item, after line trimming / rustfmt (Builder::dedup
+                 is not used by any configuration of the property, so `dup` stays empty and the text of an
+                 item does not depend on its predecessors)
+     kind_prefix, item_name   "message" / "enum" / ... and node.name() (split-mode file names)
+     location, crate_name, repubs, dep_names   DefLocation of an item, Context::crate_name, the re-exported
+                 defs and the sorted+dedup'd dependency crate names of a crate (functions of the crate's own
+                 items in location_map order, computed by collect_def_ids over Fx (fixed-seed) maps)
+   What is arbitrary (the permutation parameters; each is *any* function returning a permutation of its
+   argument, which over-approximates "iteration order of a hash container with a per-process seed" and
+   "order in which rayon workers pick up the groups"):
+     pi_mods   std HashMap order of `mods` (into_group_map_by in write_items)
+     pi_work   order in which the par_iter bodies run (sequentialised; bodies touch disjoint state)
+     pi_keys   DashMap iteration order of `pkgs.iter()`
+     pi_tree   std HashMap order of `groups` in from_pkgs, at every level of the tree
+     pi_entry  std HashMap order of `entry_map` (workspace: into_group_map_by)
+     pi_crates order in which the par_iter over `entry_deps` runs create_crate
+   A hash map *value* is its content, kept as an association list sorted by key (a canonical form);
+   its iteration order is a separate, arbitrary permutation.  A directory of the file system is the
+   log of writes performed in it.  No proofs here. *)
+From Coq Require Import String List Bool Arith Ascii DecimalString Permutation.
+From PVBld Require Import Names.
+Import ListNotations.
+Open Scope string_scope.
+Open Scope list_scope.
+
+Definition path := list string.
+
+(* ---- orders (Rust: str / slice Ord = bytewise lexicographic) --------------------------------- *)
+Section Lex.
+  Context {A : Type} (cmp : A -> A -> comparison).
+  Fixpoint lex_cmp (p q : list A) : comparison :=
+    match p, q with
+    | [], [] => Eq
+    | [], _ :: _ => Lt
+    | _ :: _, [] => Gt
+    | a :: p', b :: q' => match cmp a b with Eq => lex_cmp p' q' | c => c end
+    end.
+End Lex.
+
+Definition ascii_cmp (a b : ascii) : comparison := Nat.compare (nat_of_ascii a) (nat_of_ascii b).
+Definition str_cmp (s t : string) : comparison :=
+  lex_cmp ascii_cmp (list_ascii_of_string s) (list_ascii_of_string t).
+Definition path_cmp (p q : path) : comparison := lex_cmp str_cmp p q.
+
+(* ---- stable insertion sort by key (Vec::sort_by_key / Itertools::sorted_by_key, sorted) ------------ *)
+Section Sort.
+  Context {A K : Type} (key : A -> K) (cmp : K -> K -> comparison).
+  Definition leb (x y : K) : bool := match cmp x y with Gt => false | _ => true end.
+  Fixpoint insert (x : A) (l : list A) : list A :=
+    match l with
+    | [] => [x]
+    | y :: r => if leb (key x) (key y) then x :: l else y :: insert x r
+    end.
+  Fixpoint isort (l : list A) : list A :=
+    match l with [] => [] | x :: r => insert x (isort r) end.
+End Sort.
+
+(* ---- Itertools::into_group_map_by: content of the resulting map ------------------------------------
+   one entry per distinct key (listed here in first-occurrence order; the real order is a permutation
+   parameter at every use), the values of a key in input order *)
+Section Group.
+  Context {A K : Type} (f : A -> K) (eqb : K -> K -> bool).
+  Fixpoint first_keys (seen : list K) (l : list A) : list K :=
+    match l with
+    | [] => []
+    | x :: r => if existsb (eqb (f x)) seen then first_keys seen r else f x :: first_keys (f x :: seen) r
+    end.
+  Definition group_by (l : list A) : list (K * list A) :=
+    map (fun k => (k, filter (fun x => eqb (f x) k) l)) (first_keys [] l).
+End Group.
+
+Fixpoint path_eqb (p q : path) : bool :=
+  match p, q with
+  | [], [] => true
+  | a :: p', b :: q' => (a =? b)%string && path_eqb p' q'
+  | _, _ => false
+  end.
+
+(* Itertools::dedup: drops *consecutive* duplicates *)
+Fixpoint dedup_adj (l : list string) : list string :=
+  match l with
+  | a :: ((b :: _) as r) => if (a =? b)%string then dedup_adj r else a :: dedup_adj r
+  | _ => l
+  end.
+
+(* ---- hash map values as canonical association lists ------------------------------------------------- *)
+(* pkgs.entry(k).or_default().push_str(s) *)
+Fixpoint fmap_push (m : list (path * string)) (k : path) (s : string) : list (path * string) :=
+  match m with
+  | [] => [(k, s)]
+  | (k', s') :: r =>
+      match path_cmp k k' with
+      | Eq => (k', (s' ++ s)%string) :: r
+      | Lt => (k, s) :: m
+      | Gt => (k', s') :: fmap_push r k s
+      end
+  end.
+
+(* pkgs.remove(k) *)
+Fixpoint fmap_remove (m : list (path * string)) (k : path) : option string * list (path * string) :=
+  match m with
+  | [] => (None, [])
+  | (k', s') :: r =>
+      if path_eqb k k' then (Some s', r)
+      else let '(o, r') := fmap_remove r k in (o, (k', s') :: r')
+  end.
+
+(* a directory / crate is (re)written as a whole by one worker: last writer wins *)
+Section Put.
+  Context {K V : Type} (cmp : K -> K -> comparison).
+  Fixpoint fmap_put (m : list (K * V)) (k : K) (v : V) : list (K * V) :=
+    match m with
+    | [] => [(k, v)]
+    | (k', v') :: r =>
+        match cmp k k' with
+        | Eq => (k', v) :: r
+        | Lt => (k, v) :: m
+        | Gt => (k', v') :: fmap_put r k v
+        end
+    end.
+End Put.
+
+(* ---- PkgNode ------------------------------------------------------------------------------------------ *)
+Inductive pkg_node := Node (p : path) (children : list pkg_node).
+Definition node_path (n : pkg_node) : path := match n with Node p _ => p end.
+
+Definition nonempty (p : path) : bool := match p with [] => false | _ => true end.
+Definition head_seg (p : path) : string := match p with [] => "" | a :: _ => a end.
+(* v.into_iter().filter(|p| p.len() > 1).map(|p| &p[1..]) *)
+Definition tails (v : list path) : list path :=
+  map (fun p => tl p) (filter (fun p => (1 <? length p)%nat) v).
+
+Fixpoint max_len (l : list path) : nat :=
+  match l with [] => 0 | p :: r => Nat.max (length p) (max_len r) end.
+
+(* ---- decimal numbers, joins (lower case: Names.lower) ------------------------------------------------------------- *)
+Definition string_of_nat (n : nat) : string := NilEmpty.string_of_uint (Nat.to_uint n).
+Fixpoint join (sep : string) (l : list string) : string :=
+  match l with
+  | [] => ""
+  | [a] => a
+  | a :: r => (a ++ sep ++ join sep r)%string
+  end.
+
+(* fn generate_unique_name(existing_names, simple_name):
+     let mut counter = 1; let mut name = simple_name;
+     while existing_names.contains(lower(name)) { counter += 1; name = format!("{simple_name}_{counter}") }
+   the candidates are pairwise distinct, so the loop ends within |existing| + 1 rounds *)
+Fixpoint gun_loop (fuel : nat) (existing : list string) (simple : string) (counter : nat) (name : string) : string :=
+  if mem (lower name) existing then
+    match fuel with
+    | 0 => name
+    | S f => gun_loop f existing simple (S counter)
+               (simple ++ "_" ++ string_of_nat (S counter))%string
+    end
+  else name.
+Definition generate_unique_name (existing : list string) (simple : string) : string :=
+  gun_loop (S (length existing)) existing simple 1 simple.
+
+Definition dir_log := list (string * string).     (* (file name, content) in the order written *)
+
+Section Pipeline.
+  Variable item : Type.
+  Variable mod_path : item -> path.
+  Variable render : item -> string.
+  Variable kind_prefix : item -> string.
+  Variable item_name : item -> string.
+
+  Variable pi_mods : list (path * list item) -> list (path * list item).
+  Variable pi_work : list (path * list item) -> list (path * list item).
+  Variable pi_keys : list path -> list path.
+  Variable pi_tree : list (string * list path) -> list (string * list path).
+
+  (* ---- pkg_tree.rs --------------------------------------------------------------------------------- *)
+  Fixpoint from_pkgs (fuel : nat) (base : path) (pkgs : list path) : list pkg_node :=
+    match fuel with
+    | 0 => []
+    | S f =>
+        match pkgs with
+        | [] => []
+        | _ =>
+            match filter nonempty pkgs with
+            | [] => [Node base []]
+            | ne =>
+                map (fun kv => let p := base ++ [fst kv] in Node p (from_pkgs f p (tails (snd kv))))
+                    (pi_tree (group_by head_seg String.eqb ne))
+            end
+        end
+    end.
+
+  (* PkgNode::from_pkgs *)
+  Definition pkg_tree (keys : list path) : list pkg_node :=
+    [Node [] (from_pkgs (S (max_len keys)) [] keys)].
+
+  (* ---- write_stream: `for node in nodes.iter().sorted_by_key(|x| &x.path)` at every level ------------- *)
+  Fixpoint sort_tree (n : pkg_node) : pkg_node :=
+    match n with Node p cs => Node p (isort node_path path_cmp (map sort_tree cs)) end.
+
+  Fixpoint last_seg (p : path) : option string :=
+    match p with [] => None | [a] => Some a | _ :: r => last_seg r end.
+
+  (* returns (text appended to `stream`, pkgs after the removals, did the function `return` early?) *)
+  Fixpoint ws_node (n : pkg_node) (pk : list (path * string)) : string * list (path * string) * bool :=
+    match n with
+    | Node p cs =>
+        let '(o, pk1) := fmap_remove pk p in
+        let inner0 := match o with Some s => s | None => "" end in
+        let '(inner_c, pk2) :=
+          (fix ws_list (l : list pkg_node) (pk : list (path * string)) : string * list (path * string) :=
+             match l with
+             | [] => ("", pk)
+             | c :: l' =>
+                 let '(s, pk', stop) := ws_node c pk in
+                 if stop then (s, pk')
+                 else let '(s', pk'') := ws_list l' pk' in ((s ++ s')%string, pk'')
+             end) cs pk1 in
+        let inner := (inner0 ++ inner_c)%string in
+        match last_seg p with
+        | None => (inner, pk2, true)
+        | Some name =>
+            if (name =? "")%string then (inner, pk2, true)
+            else (("
+pub mod " ++ display name ++ " {
+" ++ inner ++ "
+}
+")%string, pk2, false)
+        end
+    end.
+
+  Definition write_stream (pk : list (path * string)) (nodes : list pkg_node) : string :=
+    (fix ws_list (l : list pkg_node) (pk : list (path * string)) : string :=
+       match l with
+       | [] => ""
+       | c :: l' =>
+           let '(s, pk', stop) := ws_node c pk in
+           if stop then s else (s ++ ws_list l' pk')%string
+       end) (isort node_path path_cmp (map sort_tree nodes)) pk.
+
+  (* ---- one par_iter body ---------------------------------------------------------------------------- *)
+  (* not split: for def_id in def_ids { this.write_item(&mut stream, *def_id, &mut dup) } *)
+  Definition render_group (its : list item) : string := String.concat "" (map render its).
+
+  (* split: write_split_mod.  Returns the directory's write log and the text pushed to `stream`. *)
+  Definition simple_name (it : item) : string := (kind_prefix it ++ "_" ++ item_name it)%string.
+
+  Fixpoint split_items (existing : list string) (its : list item) : dir_log * string :=
+    match its with
+    | [] => ([], "")
+    | it :: r =>
+        let unique := generate_unique_name existing (simple_name it) in
+        let file_name := (unique ++ ".rs")%string in
+        let '(log, mod_stream) := split_items (lower unique :: existing) r in
+        ((file_name, render it) :: log,
+         ("include!(""" ++ file_name ++ """);
+" ++ mod_stream)%string)
+    end.
+
+  Definition split_group (p : path) (its : list item) : dir_log * string :=
+    let '(log, mod_stream) := split_items [] its in
+    (log ++ [("mod.rs", mod_stream)],
+     ("include!(""" ++ join "/" p ++ "/mod.rs"");
+")%string).
+
+  (* ---- write_items ------------------------------------------------------------------------------------ *)
+  (* file system below base_dir: directory (as a module path) -> write log; the directory of group p is
+     base_dir/p[0]/p[1]/..., written by the one worker that runs p's body *)
+  Definition fs := list (path * dir_log).
+
+  Definition write_items (split : bool) (items : list item) : string * fs :=
+    let mods := pi_mods (group_by mod_path path_eqb items) in
+    let work := pi_work mods in
+    let step (st : list (path * string) * fs) (g : path * list item) :=
+      let '(pkgs, files) := st in
+      if split then
+        let '(log, s) := split_group (fst g) (snd g) in
+        (fmap_push pkgs (fst g) s, fmap_put path_cmp files (fst g) log)
+      else (fmap_push pkgs (fst g) (render_group (snd g)), files) in
+    let '(pkgs, files) := fold_left step work ([], []) in
+    let keys := pi_keys (map fst pkgs) in
+    (write_stream pkgs (pkg_tree keys), files).
+
+  (* ---- workspace.rs ------------------------------------------------------------------------------------- *)
+  Variable loc : Type.
+  Variable loc_eqb : loc -> loc -> bool.
+  Variable location : item -> loc.
+  Variable crate_name : loc -> string.
+  Variable repubs : loc -> list item -> list item.
+  Variable dep_names : loc -> list item -> list string.
+  Variable pi_entry : list (loc * list item) -> list (loc * list item).
+  Variable pi_crates : list (loc * list item) -> list (loc * list item).
+
+  (* create_crate: Cargo.toml dependencies, gen.rs (and the split files below <crate>/src) *)
+  Definition crate_out := (list string * (string * fs))%type.
+  Definition create_crate (split : bool) (k : loc) (v : list item) : crate_out :=
+    (dep_names k v, write_items split (v ++ repubs k v)).
+
+  (* group_defs: returns (the `members = [...]` lines of the root Cargo.toml, crate directory -> content) *)
+  Definition workspace (split : bool) (lm_items : list item) : list string * list (string * crate_out) :=
+    let entry_map := pi_entry (group_by location loc_eqb lm_items) in
+    let members :=
+      isort (fun s => s) str_cmp
+        (dedup_adj (map (fun kv => ("    """ ++ crate_name (fst kv) ++ """")%string) entry_map)) in
+    let crates :=
+      fold_left (fun m kv => fmap_put str_cmp m (crate_name (fst kv)) (create_crate split (fst kv) (snd kv)))
+                (pi_crates entry_map) [] in
+    (members, crates).
+End Pipeline.
+
+(* every permutation parameter is a function that returns a permutation of its argument *)
+Definition perm_fun {A} (pi : list A -> list A) : Prop := forall l, Permutation (pi l) l.
+
+(* layout predicted for the correspondence check: the sequence of module paths in the order in which
+   write_stream opens them, given the set of module paths that received items *)
+Fixpoint layout_node (n : pkg_node) : list path :=
+  match n with
+  | Node p cs => p :: flat_map layout_node cs
+  end.
+Definition layout (keys : list path) : list path :=
+  flat_map layout_node
+    (isort node_path path_cmp
+       (map sort_tree (pkg_tree (fun l => l) keys))).
